@@ -414,6 +414,16 @@ class Executor:
                       "core::f64::<impl f64>::INFINITY": float("inf"), "core::f64::<impl f64>::NEG_INFINITY": float("-inf")}
         if t.strip() in std_consts:
             return Sc("f64", z3.FPVal(std_consts[t.strip()], F64))
+        mi = re.match(r"^core::num::<impl (i8|i16|i32|i64|i128|isize|u8|u16|u32|u64|u128|usize)>::(BITS|MAX|MIN)$", t.strip())
+        if mi:
+            # associated constants of the integer types (std documentation)
+            bits, signed = {"i8": (8, 1), "i16": (16, 1), "i32": (32, 1), "i64": (64, 1), "i128": (128, 1), "isize": (64, 1),
+                            "u8": (8, 0), "u16": (16, 0), "u32": (32, 0), "u64": (64, 0), "u128": (128, 0), "usize": (64, 0)}[mi.group(1)]
+            if mi.group(2) == "BITS":
+                return bv("u32", bits)
+            hi = (1 << (bits - 1)) - 1 if signed else (1 << bits) - 1
+            lo = -(1 << (bits - 1)) if signed else 0
+            return bv(mi.group(1), hi if mi.group(2) == "MAX" else lo)
         # platform constants of std::env::consts for the platform the checks (and their native replays) run on: x86_64 linux
         std_text = {"std::env::consts::DLL_EXTENSION": "so", "std::env::consts::DLL_SUFFIX": ".so", "std::env::consts::DLL_PREFIX": "lib",
                     "std::env::consts::EXE_EXTENSION": "", "std::env::consts::EXE_SUFFIX": "", "std::env::consts::OS": "linux",
